@@ -180,7 +180,7 @@ def gen_config(rng: random.Random, seed_tag: int, force_variant: str | None = No
     """Returns (kw, extra, meta).  `kw` are State constructor arguments."""
     profile = profile or {}
     unit = rng.choice([2, 2, 4, 10])
-    variant = force_variant or rng.choice(list(VARIANTS) + ['custom'] * 2)
+    variant = force_variant or rng.choice(list(VARIANTS) + ([] if profile.get('predefined') else ['custom'] * 2))
     autos, auto_mode = gen_autos(rng)
     if 'autos' in profile:
         autos, auto_mode = profile['autos'], 'forced'
@@ -242,7 +242,10 @@ def gen_config(rng: random.Random, seed_tag: int, force_variant: str | None = No
                   starting_board_count=game.starting_board_count, divmod=game.divmod, rake=game.rake)
     meta.update({'n': n, 'antes': ak, 'blinds': bk, 'stacks': sk})
     meta['deck_ok'] = deck_suffices(kw)
-    extra = {'seed': seed_tag, 'warnerr': warnerr, 'divchunk': divchunk,
+    vinfo = None
+    if variant != 'custom':
+        vinfo = (VARIANTS[variant].__name__, unit, 2 * unit if variant in TWO_BETS else unit)
+    extra = {'seed': seed_tag, 'warnerr': warnerr, 'divchunk': divchunk, 'variant': vinfo,
              'rake_line': (rake_t[0], rake_t[1], 'inf' if rake_t[2] is None else rake_t[2],
                            int(rake_t[3]))}
     return kw, extra, meta
